@@ -15,7 +15,7 @@ def prepare_mac():
     """Copy the macro crate's sources into the harness crate (lib.rs is replaced by
     the shim main.rs).  Only files that changed are rewritten, so cargo stays incremental."""
     dst = os.path.join(MAC, "src")
-    keep = {"main.rs", "ser.rs", "readback.rs"}
+    keep = {"main.rs", "ser.rs", "readback.rs", "oracle.rs"}
     want = {}
     for d, dirs, files in os.walk(MSRC):
         for f in files:
